@@ -11,6 +11,8 @@ PROP = Property(
         {"func": "server/clientio.go:ClientIO.Abort", "order": ["GetCommands", "Lock", "completeCommand", "Unlock"], "absent": ["Write"]},
         {"func": "server/clientio.go:ClientIO.ExecCommand", "order": ["ID", "Lock", "Unlock", "Add", "Release"]},
         {"func": "server/clientio.go:ClientIO.completeCommand", "contains": ["delete"]},
+        # since fix 3b7dc98 execution does not depend on the queued copy of the event (the bounded queue drops its oldest entries)
+        {"func": "server/clientio.go:NewClientIO", "contains": ["Register", "UnsafeRunInAddEvent", "Exec", "Abort"]},
         {"func": "protocol/consensus/committer.go:Committer.commitInner", "order": ["View", "Get", "commitInner", "AddEvent", "AddEvent"]},
         {"func": "protocol/consensus/committer.go:Committer.commit", "order": ["commitInner", "PruneToHeight", "AddEvent"]},
     ],
